@@ -1004,6 +1004,9 @@ func (rs *RelationService) MarkDeleted(tableName string, rowID uint32) (WALBatch
 		cellID: cell.key,
 	})
 
+	// every logged row operation takes a fresh LSN, like Insert and Update do
+	rs.fs.incrLSN()
+
 	return walLogs, nil
 }
 
